@@ -97,6 +97,16 @@ def check_case(case):
                         % (i, g[2].hex(), len(g[2]), e[2].hex(), len(e[2]))))
         if g[3] != e[3]:
             bad.append(({'kind': 'encrypted_flag'}, 'record %d: lr_is_encrypted=%r written %r' % (i, g[3], e[3])))
+    if case['shape'] == 'L' or len(data) % 16 == 0:
+        # "accepted" also means that the batch tools do not skip the file: they ask bin_file_type first (a C01 anchor)
+        from TotalDepth.util import bin_file_type
+        try:
+            ftype = bin_file_type.binary_file_type(io.BytesIO(data))
+        except Exception as err:  # noqa
+            ftype = 'raised %s' % type(err).__name__
+        if ftype != 'RP66V1':
+            bad.append(({'kind': 'label_not_identified_as_rp66v1'}, 'file with label %r is identified as %r, the tools will ignore it'
+                        % (data[:20], ftype)))
     seq = int(lab.get('seq_text', '   1'))
     mx = int(lab.get('maxlen_text', '08192'))
     ident = lab.get('ident', 'Default Storage Set'.ljust(60)).encode('latin1')
